@@ -2,6 +2,7 @@
 package main
 
 import (
+	"bytes"
 	"fmt"
 	"reflect"
 	"sync/atomic"
@@ -157,7 +158,15 @@ func roundTrip(c *vlib.Check, codec datacodec.Codec, dt datatype.DataType, v gen
 	if t.Kind() == reflect.Ptr {
 		target = dest.Elem().Interface()
 	}
-	wasNull, err, pv, site := cql.Decode(codec, enc, target, v)
+	// every Decode gets a private copy of the bytes (keeping nil as nil): a decoded value may legitimately
+	// alias the bytes it was decoded from, and an encoding may alias its source
+	private := func(b []byte) []byte {
+		if b == nil {
+			return nil
+		}
+		return append([]byte{}, b...)
+	}
+	wasNull, err, pv, site := cql.Decode(codec, private(enc), target, v)
 	if pv != nil {
 		k := keys("decode-panic")
 		k["site"] = site
@@ -178,6 +187,38 @@ func roundTrip(c *vlib.Check, codec datacodec.Codec, dt datatype.DataType, v gen
 		return
 	}
 	atomic.AddInt64(&validated, 1)
+	// ownership: the caller may do what it likes with the bytes Encode returned and with the value Decode
+	// produced; a second Encode / Decode of the same input must come out as the first did
+	encSnap := private(enc)
+	isNil := enc == nil
+	if cql.Scribble(dest) > 0 {
+		atomic.AddInt64(&evals, 1)
+		enc2, err, pv, _ := cql.Encode(codec, src.Interface(), v)
+		same := bytes.Equal(enc2, encSnap)
+		if !same && pv == nil && err == nil && containsMap(t, 0) {
+			// map entries are written in Go's iteration order: compare what the bytes denote
+			d3 := reflect.New(t)
+			if _, err3, pv3, _ := cql.Decode(codec, enc2, d3.Interface(), v); err3 == nil && pv3 == nil && cql.Abstract(dt, d3.Elem()).Key() == a.Key() {
+				same = true
+			}
+		}
+		if pv != nil || err != nil || !same || (enc2 == nil) != isNil {
+			c.Violation(keys("result-not-owned-by-caller"), fmt.Sprintf("%s: after the caller changed the value Decode gave it, Encode yields %x instead of %x (err %v, panic %v)", desc, clip(enc2), clip(encSnap), err, pv), desc)
+			return
+		}
+		dest2 := reflect.New(t)
+		var target2 interface{} = dest2.Interface()
+		if t.Kind() == reflect.Ptr {
+			dest2.Elem().Set(reflect.New(t.Elem()))
+			target2 = dest2.Elem().Interface()
+		}
+		wn2, err, pv, _ := cql.Decode(codec, private(encSnap), target2, v)
+		if got2 := cql.Abstract(dt, dest2.Elem()); pv != nil || err != nil || wn2 != wasNull || got2.Key() != a.Key() {
+			c.Violation(keys("result-not-owned-by-caller"), fmt.Sprintf("%s: after the caller changed the value it was given, decoding %x again yields %s (err %v, panic %v)", desc, clip(encSnap), got2, err, pv), desc)
+			return
+		}
+	}
+	enc = encSnap
 	for _, pf := range prefill {
 		if !pf.IsValid() || pf.Type() != t || t.Kind() == reflect.Ptr || containsMap(t, 0) {
 			continue // maps are filled in place (entries are merged, as encoding/json does): not demanded
@@ -196,7 +237,7 @@ func roundTrip(c *vlib.Check, codec datacodec.Codec, dt datatype.DataType, v gen
 	}
 	if alsoIface {
 		var any interface{}
-		wasNull, err, pv, site = cql.Decode(codec, enc, &any, v)
+		wasNull, err, pv, site = cql.Decode(codec, private(enc), &any, v)
 		if pv != nil {
 			k := keys("decode-panic")
 			k["site"], k["rep"] = site, "*interface{}"
@@ -223,6 +264,16 @@ func roundTrip(c *vlib.Check, codec datacodec.Codec, dt datatype.DataType, v gen
 			}
 		}
 		atomic.AddInt64(&validated, 1)
+		if cql.Scribble(reflect.ValueOf(&any)) > 0 {
+			var any2 interface{}
+			atomic.AddInt64(&evals, 1)
+			_, err, pv, _ := cql.Decode(codec, private(enc), &any2, v)
+			if got2 := cql.Abstract(dt, reflect.ValueOf(&any2).Elem()); pv != nil || err != nil || got2.Key() != a.Key() {
+				k := keys("result-not-owned-by-caller")
+				k["rep"] = "*interface{}"
+				c.Violation(k, fmt.Sprintf("%s: after the caller changed the value it received through *interface{}, decoding %x again yields %s (err %v, panic %v)", desc, clip(enc), got2, err, pv), desc)
+			}
+		}
 	}
 }
 
